@@ -77,7 +77,9 @@ def call(w, e, st):
                         lit0 = w.eng.const_literal(v[1][6:])
                         if lit0 is not None and len(lit0) == 4 and lit0[0] == "lit" and lit0[1] == "tuple":
                             v = lit0  # *ARGS with a module-level tuple
-                    if isinstance(v, tuple) and len(v) == 4 and v[0] == "lit" and v[1] in ("tuple", "list"):
+                    if isinstance(v, tuple) and len(v) == 3 and v[0] == "nt" and not (v[1] in w.prog.classes and w.prog.classes[v[1]].is_dataclass):
+                        flat_args.extend(v[2])  # *record: a NamedTuple is the tuple of its fields
+                    elif isinstance(v, tuple) and len(v) == 4 and v[0] == "lit" and v[1] in ("tuple", "list"):
                         flat_args.extend(v[2])
                     else:
                         ok = False
